@@ -244,17 +244,27 @@ func redactCommand(cmd *orderedmap.OrderedMap[string, any], shouldEagerRedact bo
 	}
 }
 
+var planSummaryIndexScan = regexp.MustCompile(`IXSCAN\s*\{([^}]+)\}`)
+
+// redactFieldNamesFromPlanSummary replaces the index-key names of every IXSCAN stage by their
+// pseudonyms. Each key is rewritten where it stands: replacing the names across the whole text
+// would also hit their occurrences inside other names, inside the stage keyword and inside the
+// pseudonyms written before.
 func redactFieldNamesFromPlanSummary(planSummary string) string {
-	if planSummary == "COLLSCAN" {
-		return planSummary
-	}
-	result := planSummary
-	fieldNames := ParsePlanSummary(planSummary)
-	for _, fieldName := range fieldNames {
-		hashed := HashName(fieldName)
-		result = strings.ReplaceAll(result, fieldName, hashed)
-	}
-	return result
+	return planSummaryIndexScan.ReplaceAllStringFunc(planSummary, func(stage string) string {
+		parts := strings.SplitN(stage, "{", 2)
+		fields := strings.Split(strings.TrimSuffix(parts[1], "}"), ",")
+		for i, field := range fields {
+			keyVal := strings.SplitN(field, ":", 2)
+			key := strings.TrimSpace(keyVal[0])
+			if key == "" {
+				continue
+			}
+			keyVal[0] = strings.Replace(keyVal[0], key, HashName(key), 1)
+			fields[i] = strings.Join(keyVal, ":")
+		}
+		return parts[0] + "{" + strings.Join(fields, ",") + "}"
+	})
 }
 
 func traverseMapPath(path []string, operatorMap *orderedmap.OrderedMap[string, any], isSearchStage bool) (interface{}, bool) {
